@@ -119,4 +119,202 @@ Section Cleanup.
         + specialize (IH j' None). lia. }
     destruct skip as [m|]; [|apply N]. destruct (idI <=? m)%Z; [specialize (IH j (Some m)); lia|apply N].
   Qed.
+
+  (** *** completeness of the clean-up loop *)
+  (** an initial cell and an index cell intersect: one's id lies in the other's range *)
+  Definition meets (idI : Z) (c : icell) : Prop :=
+    cid_range_min idI <= fst c <= cid_range_max idI \/ cid_range_min (fst c) <= idI <= cid_range_max (fst c).
+
+  Lemma idx_unique c c' : In c (x_cells x) -> In c' (x_cells x) ->
+    cid_range_min (fst c) <= fst c' <= cid_range_max (fst c) -> c = c'.
+  Proof.
+    intros Hc Hc' H. destruct (in_cell_at x c Hc) as (i & Hi & <-). destruct (in_cell_at x c' Hc') as (k & Hk & <-).
+    rewrite <- !it_id_at in H. rewrite (same_position x WF k i Hk Hi H). reflexivity.
+  Qed.
+
+  Lemma two_containing c c' T : In c (x_cells x) -> In c' (x_cells x) ->
+    cid_range_min (fst c) <= T <= cid_range_max (fst c) -> cid_range_min (fst c') <= T <= cid_range_max (fst c') -> c = c'.
+  Proof.
+    intros Hc Hc' H H'. destruct (in_cell_at x c Hc) as (i & Hi & <-). destruct (in_cell_at x c' Hc') as (k & Hk & <-).
+    rewrite <- !it_id_at in H, H'.
+    destruct (Nat.lt_trichotomy i k) as [L|[->|G]]; [|reflexivity|].
+    - pose proof (ranges_ordered x WF i k ltac:(lia)). lia.
+    - pose proof (ranges_ordered x WF k i ltac:(lia)). lia.
+  Qed.
+
+  Lemma nested_of_in_range a b : valid a -> valid b -> cid_range_min a <= b <= cid_range_max a ->
+    cid_range_min a <= cid_range_min b /\ cid_range_max b <= cid_range_max a.
+  Proof.
+    intros (La & Va) (Lb & Vb) H.
+    rewrite (cid_range_min_valid a La Va), (cid_range_max_valid a La Va) in *.
+    rewrite (cid_range_min_valid b Lb Vb), (cid_range_max_valid b Lb Vb).
+    destruct (id_in_range_nested a La b Lb Va Vb H) as (_ & A & B). lia.
+  Qed.
+
+  Lemma cell_valid c : In c (x_cells x) -> valid (fst c).
+  Proof. apply (proj1 WF). Qed.
+  Lemma valid_in_own_range a : valid a -> cid_range_min a <= a <= cid_range_max a.
+  Proof. intros (L & V). apply (range_of_valid _ _ V). Qed.
+
+  (** a sound entry represents every index cell its id meets *)
+  Lemma good_represents ce c : good ce -> In c (x_cells x) -> meets (fst ce) c -> rep ce c.
+  Proof.
+    intros [Vt [Hs Hn]] Hc M. destruct (snd ce) as [es|] eqn:Es.
+    - destruct (Hs es eq_refl) as (c1 & Hc1 & E1 & E2). left.
+      assert (c1 = c).
+      { destruct M as [M|M]; rewrite <- E1 in M; [apply (idx_unique c1 c Hc1 Hc M)|].
+        symmetry. apply (idx_unique c c1 Hc Hc1 M). }
+      subst c1. split; [symmetry; exact E1|rewrite E2; exact Es].
+    - destruct (Hn eq_refl) as (c0 & Hc0 & [[_ R]|(_ & R & N)]); [rewrite Es in R; discriminate|].
+      apply contains_iff in R. right. split; [exact Es|].
+      destruct M as [M|M].
+      + split; [apply contains_iff; exact M|]. intros E. apply N. rewrite E.
+        assert (c = c0) by (apply (idx_unique c c0 Hc Hc0); rewrite <- E; exact R). subst c0. reflexivity.
+      + exfalso. pose proof (cell_valid c Hc) as Vc. pose proof (cell_valid c0 Hc0) as V0.
+        destruct (nested_of_in_range (fst c) (fst ce) Vc Vt M) as [A B].
+        assert (c = c0) by (apply (idx_unique c c0 Hc Hc0); lia). subst c0.
+        (* T inside c0 and c0's id inside T: equal cells *)
+        destruct Vt as (Lt & VT). destruct Vc as (Lc & VC).
+        rewrite (cid_range_min_valid _ _ VT), (cid_range_max_valid _ _ VT) in R.
+        rewrite (cid_range_min_valid _ _ VC), (cid_range_max_valid _ _ VC) in M.
+        destruct (id_in_range_nested _ Lt _ Lc VT VC R) as (L1 & A1 & B1).
+        destruct (id_in_range_nested _ Lc _ Lt VC VT M) as (L2 & A2 & B2).
+        assert (Lt = Lc) by lia. subst Lc. apply N. lia.
+  Qed.
+
+  Lemma indexed_unique idI pos c : valid idI -> locate_cell x idI = (Indexed, pos) ->
+    In c (x_cells x) -> meets idI c -> c = cell_at x pos.
+  Proof.
+    intros Vi El Hc M. destruct (locate_indexed idI pos Vi El) as (Hp & Hr).
+    pose proof (cell_at_in x pos Hp) as Hcp. rewrite it_id_at in Hr. symmetry.
+    destruct M as [M|M].
+    - apply (idx_unique _ _ Hcp Hc).
+      destruct (nested_of_in_range _ idI (cell_valid _ Hcp) Vi Hr) as [A B]. lia.
+    - apply (two_containing _ _ idI Hcp Hc Hr M).
+  Qed.
+
+  Lemma locate_disjoint idI pos c : valid idI -> locate_cell x idI = (Disjoint, pos) ->
+    In c (x_cells x) -> ~ meets idI c.
+  Proof.
+    intros Vi El Hc M. pose proof (valid_in_own_range idI Vi) as Ri.
+    destruct (in_cell_at x c Hc) as (k & Hk & <-). unfold meets in M. rewrite <- it_id_at in M.
+    destruct (id_valid x WF k Hk) as (Lk & Vk). pose proof (range_of_valid _ _ Vk) as Rk.
+    unfold locate_cell in El.
+    pose proof (seek_le x (cid_range_min idI)) as Sl.
+    pose proof (seek_before x (cid_range_min idI)) as Sb.
+    pose proof (seek_at x (cid_range_min idI)) as Sa.
+    remember (it_seek x (cid_range_min idI)) as p eqn:Hp0.
+    destruct (negb (it_done x p) && (it_id x p >=? idI) && (cid_range_min (it_id x p) <=? idI)) eqn:E1; [discriminate|].
+    destruct (negb (it_done x p) && (it_id x p <=? cid_range_max idI)) eqn:E2; [discriminate|].
+    destruct (Nat.lt_ge_cases k p) as [Lt|Ge].
+    - (* the cell lies before the seek position: it must contain idI and be the predecessor *)
+      pose proof (Sb k Lt) as Sbk.
+      destruct p as [|p']; [lia|].
+      destruct (cid_range_max (it_id x p') >=? idI) eqn:E3; [discriminate|]. rewrite Z.geb_leb in E3. apply Z.leb_gt in E3.
+      destruct M as [M|M]; [lia|].
+      destruct (Nat.eq_dec k p') as [->|N]; [lia|].
+      pose proof (ranges_ordered x WF k p' ltac:(lia)). pose proof (Sb p' ltac:(lia)) as Sb'.
+      destruct (id_valid x WF p' ltac:(lia)) as (Lp & Vp). pose proof (range_of_valid _ _ Vp). lia.
+    - assert (Hp : (p < length (x_cells x))%nat) by lia.
+      specialize (Sa Hp). rewrite (lt_not_done x WF p Hp) in E1, E2. cbn [negb andb] in E1, E2.
+      apply Z.leb_gt in E2.
+      pose proof (ids_monotone x WF p k Ge Hk) as Mo.
+      destruct M as [M|M]; [lia|].
+      destruct (Nat.eq_dec p k) as [->|N].
+      + apply andb_false_iff in E1. destruct E1 as [E1|E1]; [rewrite Z.geb_leb in E1|]; apply Z.leb_gt in E1; lia.
+      + pose proof (ranges_ordered x WF p k ltac:(lia)).
+        destruct (id_valid x WF p Hp) as (Lp & Vp). pose proof (range_of_valid _ _ Vp). lia.
+  Qed.
+
+  (** the loop: every index cell met by an initial cell is represented by an emitted entry *)
+  Theorem cleanup_represents cov : (forall ce, In ce cov -> good ce) ->
+    forall cells, (forall id, In id cells -> valid id) -> StronglySorted Z.lt cells ->
+    forall j skip,
+    (forall m, skip = Some m -> exists C, In C (x_cells x) /\ m = cid_range_max (fst C) /\
+       forall id, In id cells -> cid_range_min (fst C) <= id) ->
+    forall idI c, In idI cells -> In c (x_cells x) -> meets idI c ->
+    (exists ce, In ce (cleanup_initial x cells cov j skip) /\ rep ce c) \/
+    (exists m, skip = Some m /\ m = cid_range_max (fst c) /\ cid_range_min (fst c) <= idI <= cid_range_max (fst c)).
+  Proof.
+    intros Gc. induction cells as [|id0 rest IH]; intros Vc Sc j skip Hsk idI c Hin Hc M; [contradiction|].
+    assert (V0 : valid id0) by (apply Vc; left; reflexivity).
+    assert (Vr : forall id, In id rest -> valid id) by (intros id Hid; apply Vc; right; exact Hid).
+    inversion Sc as [|? ? Sr Fr]; subst. rewrite Forall_forall in Fr.
+    cbn [cleanup_initial].
+    (* normal processing of id0, continuing with the rest *)
+    assert (Normal :
+      (exists ce, In ce (let j' := adv_j (length cov) cov j id0 in
+                     let cj := nth j' cov (cid_sentinel, None) in
+                     if id0 =? fst cj then cj :: cleanup_initial x rest cov (S j') None
+                     else match locate_cell x id0 with
+                          | (Indexed, pos) => (it_id x pos, Some (it_cell x pos)) :: cleanup_initial x rest cov j' (Some (cid_range_max (it_id x pos)))
+                          | (Subdivided, _) => (id0, None) :: cleanup_initial x rest cov j' None
+                          | (Disjoint, _) => cleanup_initial x rest cov j' None
+                          end) /\ rep ce c)).
+    { cbn zeta. set (j' := adv_j (length cov) cov j id0).
+      destruct (id0 =? fst (nth j' cov (cid_sentinel, None))) eqn:E.
+      - apply Z.eqb_eq in E.
+        destruct Hin as [<-|Hin].
+        + destruct (nth_in_or_default cov j' (cid_sentinel, None)) as [Ed|Hcov].
+          * exfalso. rewrite Ed in E. cbn [fst] in E. destruct V0 as (L & V). pose proof (valid_lt_sentinel _ _ V). lia.
+          * exists (nth j' cov (cid_sentinel, None)). split; [left; reflexivity|].
+            apply good_represents; [apply Gc; exact Hcov|exact Hc|rewrite <- E; exact M].
+        + destruct (IH Vr Sr (S j') None ltac:(discriminate) idI c Hin Hc M) as [(ce & H1 & H2)|(m & H & _)]; [|discriminate].
+          exists ce. split; [right; exact H1|exact H2].
+      - destruct (locate_cell x id0) as [[| |] pos] eqn:El.
+        + destruct (locate_indexed id0 pos V0 El) as (Hp & Hr).
+          set (C := cell_at x pos).
+          assert (HC : In C (x_cells x)) by (apply cell_at_in; exact Hp).
+          assert (RC : rep (it_id x pos, Some (it_cell x pos)) C) by (left; unfold C; cbn [fst snd]; rewrite <- it_id_at, it_cell_at; auto).
+          destruct Hin as [<-|Hin].
+          * exists (it_id x pos, Some (it_cell x pos)). split; [left; reflexivity|].
+            rewrite (indexed_unique id0 pos c V0 El Hc M). exact RC.
+          * assert (Hskip : forall m, Some (cid_range_max (it_id x pos)) = Some m -> exists C0, In C0 (x_cells x) /\ m = cid_range_max (fst C0) /\
+                      forall id, In id rest -> cid_range_min (fst C0) <= id).
+            { intros m Em. injection Em as <-. exists (cell_at x pos). rewrite <- it_id_at.
+              split; [exact HC|split; [reflexivity|]]. intros id Hid. pose proof (Fr id Hid). lia. }
+            destruct (IH Vr Sr j' (Some (cid_range_max (it_id x pos))) Hskip idI c Hin Hc M) as [(ce & H1 & H2)|(m & Em & Ec & Rc)].
+            -- exists ce. split; [right; exact H1|exact H2].
+            -- injection Em as <-. exists (it_id x pos, Some (it_cell x pos)). split; [left; reflexivity|].
+               assert (c = C).
+               { apply (two_containing c C idI Hc HC Rc). unfold C. rewrite <- it_id_at.
+                 pose proof (Fr idI Hin). lia. }
+               subst c. exact RC.
+        + destruct Hin as [<-|Hin].
+          * exists (id0, None). split; [left; reflexivity|].
+            apply good_represents; [|exact Hc|exact M].
+            apply (cleanup_entries_good cov Gc [id0] ltac:(intros id [<-|[]]; exact V0) j None).
+            cbn [cleanup_initial]. cbn zeta. fold j'. rewrite E, El. left. reflexivity.
+          * destruct (IH Vr Sr j' None ltac:(discriminate) idI c Hin Hc M) as [(ce & H1 & H2)|(m & H & _)]; [|discriminate].
+            exists ce. split; [right; exact H1|exact H2].
+        + destruct Hin as [<-|Hin]; [exfalso; exact (locate_disjoint id0 pos c V0 El Hc M)|].
+          destruct (IH Vr Sr j' None ltac:(discriminate) idI c Hin Hc M) as [(ce & H1 & H2)|(m & H & _)]; [|discriminate].
+          exists ce. split; [exact H1|exact H2]. }
+    destruct skip as [m|]; [|left; exact Normal].
+    destruct (id0 <=? m) eqn:Em; [|left; exact Normal].
+    apply Z.leb_le in Em.
+    destruct (Hsk m eq_refl) as (C & HC & EC & LC).
+    destruct Hin as [<-|Hin].
+    - (* id0 is skipped: it lies inside the index cell C that was enqueued *)
+      right. exists m. split; [reflexivity|].
+      assert (RI : cid_range_min (fst C) <= id0 <= cid_range_max (fst C)) by (split; [apply LC; left; reflexivity|lia]).
+      assert (c = C).
+      { destruct M as [M|M]; [|apply (two_containing c C id0 Hc HC M RI)].
+        symmetry. apply (idx_unique C c HC Hc).
+        destruct (nested_of_in_range (fst C) id0 (cell_valid C HC) V0 RI) as [A B]. lia. }
+      subst c. split; [exact EC|exact RI].
+    - destruct (IH Vr Sr j (Some m) ltac:(intros m' E'; injection E' as <-; exists C; split; [exact HC|split; [exact EC|intros id Hid; apply LC; right; exact Hid]]) idI c Hin Hc M) as [H|H].
+      + left. exact H.
+      + right. exact H.
+  Qed.
+
+  Corollary cleanup_represents_top cov : (forall ce, In ce cov -> good ce) ->
+    forall cells, (forall id, In id cells -> valid id) -> StronglySorted Z.lt cells ->
+    forall j idI c, In idI cells -> In c (x_cells x) -> meets idI c ->
+    exists ce, In ce (cleanup_initial x cells cov j None) /\ rep ce c.
+  Proof.
+    intros G cells V S j idI c Hi Hc M.
+    destruct (cleanup_represents cov G cells V S j None ltac:(discriminate) idI c Hi Hc M) as [H|(m & H & _)];
+      [exact H|discriminate].
+  Qed.
 End Cleanup.
